@@ -111,7 +111,9 @@ func genC09(x *Ctx) *c09Scen {
 				r.ACRH = []string{"", "X-Custom", "x-custom", "X-Custom, Accept", " accept ,X-CUSTOM", "X-Other", "X-Custom,X-Other", "Content-Type", "X-Custom,,X-Other", ",X-Other", "X-Custom, , Accept",
 					"X-Custom, Accept, x-custom, ACCEPT, accept", "content-type, Content-Type, CONTENT-TYPE", "Accept, Accept, Accept, X-Custom, X-Other",
 					// names that merely contain an allowed name
-					"Accept-Version", "X-Custom-Extra, Accept", "Proxy-X-Custom", "xaccept", "X-Content-Type-Options"}[tp.G(19)]
+					"Accept-Version", "X-Custom-Extra, Accept", "Proxy-X-Custom", "xaccept", "X-Content-Type-Options",
+					// a name browsers may put on the list although it is a request header of the preflight itself
+					"Origin", "X-Custom, origin"}[tp.G(21)]
 				if focus && tp.Chance(700) {
 					r.ACRM = []string{"PUT", "POST"}[tp.G(2)]
 					r.ACRH = ""
